@@ -128,6 +128,8 @@ def header_combo_cases(case, seed=1):
         out.append(case("dec", ty, b, fam="combo-header:" + ty, expect_re=(r"ok .*" if valid else r"err:\w+")))
         if valid:
             out.append(case("rt", ty, b, fam="combo-header-rt:" + ty, expect_re=r"ok [0-9a-f]+ T T"))
+            for t in (55799, 1):
+                out.append(case("dec", ty, head(6, t) + b, fam="combo-header-tagged:" + ty, expect_re=r"err:\w+"))
             for dv in dup_variants(entries, rng):
                 ty2, b2, _ = _carriers(enc(('m', dv)))[ci]
                 out.append(case("dec", ty2, b2, fam="combo-header-dup:" + ty2, expect_re=r"err:\w+"))
@@ -170,6 +172,8 @@ def key_combo_cases(case, seed=1):
         out.append(case("dec", ty, b, fam="combo-key:" + ty, expect_re=(r"ok .*" if valid else r"err:\w+")))
         if valid:
             out.append(case("rt", ty, b, fam="combo-key-rt:" + ty, expect_re=r"ok [0-9a-f]+ T T"))
+            for t in (55799, 1):
+                out.append(case("dec", ty, head(6, t) + b, fam="combo-key-tagged:" + ty, expect_re=r"err:\w+"))
             for dv in dup_variants(entries, rng):
                 kb2 = enc(('m', dv))
                 ty2, b2 = {"CoseKey": ("CoseKey", kb2), "set1": ("CoseKeySet", b"\x81" + kb2), "set2": ("CoseKeySet", b"\x82" + good + kb2)}[row[8]]
@@ -202,6 +206,8 @@ def claims_combo_cases(case, seed=1):
         out.append(case("dec", "ClaimsSet", b, fam="combo-claims", expect_re=(r"ok .*" if valid else r"err:\w+")))
         if valid:
             out.append(case("rt", "ClaimsSet", b, fam="combo-claims-rt", expect_re=r"ok [0-9a-f]+ T T"))
+            for t in (55799, 1):
+                out.append(case("dec", "ClaimsSet", head(6, t) + b, fam="combo-claims-tagged", expect_re=r"err:\w+"))
             for dv in dup_variants(entries, rng):
                 out.append(case("dec", "ClaimsSet", enc(('m', dv)), fam="combo-claims-dup", expect_re=r"err:\w+"))
     return out
@@ -243,7 +249,8 @@ def msg_combo_cases(case, seed=1):
     rng = random.Random("msg-combo/%d" % seed)
     P = [("empty", B(b""), True), ("a0", B(b"\xa0"), True), ("alg", B(b"\xa1\x01\x26"), True), ("direct", B(b"\xa1\x01\x25"), True), ("indef", B(b"\xbf\x04\x41\x01\xff"), True),
          ("both-iv", B(b"\xa2\x05\x41\x01\x06\x41\x02"), False), ("dup", B(b"\xa2\x04\x41\x01\x04\x41\x02"), False), ("trailing", B(b"\xa0\xa0"), False),
-         ("truncated", B(b"\xa1\x01"), False), ("notmap", B(b"\x01"), False), ("map", M(), False), ("text", T(""), False), ("nil", NULL, False)]
+         ("truncated", B(b"\xa1\x01"), False), ("selfdesc", B(b"\xd9\xd9\xf7\xa0"), False), ("tag1map", B(b"\xc1\xa1\x01\x26"), False),
+         ("bstr-in-bstr", B(b"\x41\xa0"), False), ("notmap", B(b"\x01"), False), ("map", M(), False), ("text", T(""), False), ("nil", NULL, False)]
     U = [("empty", M(), True), ("kid", M((I(4), B(b"k"))), True), ("direct", M((I(1), I(-6))), True), ("kw", M((I(1), I(-3)), (I(5), B(b"iv"))), True),
          ("ecdh", M((I(1), I(-25)), (I(-1), M((I(1), I(2))))), True), ("extra", M((T("x"), I(1)), (I(33), A())), True), ("both-iv", M((I(6), B(b"\x01")), (I(5), B(b"\x02"))), False),
          ("dup", M((I(4), B(b"a")), (I(4), B(b"a"))), False), ("badalg", M((I(1), I(-65536))), False), ("bstr", B(b"\xa0"), False), ("arr", A(), False)]
@@ -272,6 +279,8 @@ def msg_combo_cases(case, seed=1):
             b = enc(('a', items), rng if style == "noncanon" else None, style="nobignum")
             out.append(case("dec", ty, b, fam="combo-msg:" + ty, expect_re=(r"ok .*" if valid else r"err:\w+")))
             if valid:
+                for t in (55799, 1, 24, 61, 2**64 - 1):     # the untagged decoders take the bare array only
+                    out.append(case("dec", ty, head(6, t) + b, fam="combo-msg-tagged:" + ty, expect_re=r"err:\w+"))
                 # the same bytes through every other structure decoder (several types share a shape): decided by the model
                 for other in shapes:
                     if other != ty and len(shapes[other]) == len(slots):
